@@ -572,6 +572,31 @@ fn apply(st: &mut State, line: &str, out: &mut String) {
                 ret = format!("ids {}", fmt_ids(&ids));
             }
         }
+        "xrg" => {
+            // a batch whose j-th column is one value longer or shorter than the others:
+            // `Batch::new` must refuse it (panic) before anything reaches the column store
+            let (ws, desc, k) = (u(1), u(2) == 1, u(3));
+            let cs: Vec<usize> = (0..k).map(|j| u(4 + j)).collect();
+            let rows = u(4 + k);
+            let (j, longer) = (u(5 + k), u(6 + k) == 1);
+            let mut cols: Vec<Vec<u64>> = vec![Vec::new(); N];
+            let mut p = 7 + k;
+            for (idx, &c) in cs.iter().enumerate() {
+                let n = if idx == j { if longer { rows + 1 } else { rows - 1 } } else { rows };
+                for _ in 0..n {
+                    cols[c].push(v64(p));
+                    p += 1;
+                }
+            }
+            if let Some(w) = st.worlds[ws].as_mut() {
+                let ids: Vec<_> = do_extend(w, comps_mask(&cs), desc, rows, &cols)
+                    .into_iter()
+                    .map(id_parts)
+                    .collect();
+                st.issued.extend(ids.iter().copied());
+                ret = format!("ids {}", fmt_ids(&ids));
+            }
+        }
         "rem" => {
             let (i, g) = parse_target(t[2], &st.issued);
             opline = format!("op rem {} {}:{}", t[1], i, g);
